@@ -2,7 +2,7 @@
     Model: FV.Sched.  Only statements here; proofs in FVP.Sched_proofs. *)
 From Coq Require Import List ZArith Bool.
 From FV Require Import Base Sched SchedSparse C04Mix.   (* C04Mix: the correspondence interface of this property *)
-From FVP Require Import Adapters_proofs Sched_proofs Confluence_proofs Termination_proofs ConnectPhase_proofs.
+From FVP Require Import Adapters_proofs Sched_proofs Confluence_proofs Termination_proofs ConnectPhase_proofs Ring_proofs.
 Import ListNotations.
 Open Scope Z_scope.
 
@@ -111,6 +111,22 @@ Proof. exact no_wait_all_connected. Qed.
 
 (** Non-vacuity.  Ring of three with steps 10 / 1 / 3 (sum 14): delays 6+5 on one link, 3 on another, 0 on
     the third — no single link covers its consumer's step, the potential is not constant. *)
+(** The same without a potential, for a plain RING of time components (every component has exactly one input, fed by
+    its predecessor on the ring; [pos] numbers the components along the data flow, the listing order is arbitrary): if
+    the non-negative fixed delays on the ring's links - wherever they sit, however they are split over the links and over
+    several adapters of one link - sum to at least the sum of the components' largest steps, no run reports a circular
+    coupling.  (The potential is constructed: prefix sums of  largest step - delay  along the ring.) *)
+Theorem C04_ring_total_delay_suffices :
+  forall cs pos D endt fuel o st acc,
+    wf cs -> ring cs pos D ->
+    zsum (S_of cs) (seq 0 (length cs)) <= zsum D (seq 0 (length cs)) ->
+    run fuel cs endt = (o, st, acc) -> o <> OCirc.
+Proof.
+  intros cs pos D endt fuel o st acc W R E H.
+  destruct (ring_total_delay_suffices cs pos D R E) as [phi [rank S]].
+  exact (C04_delay_sufficient cs phi rank endt fuel o st acc W S H).
+Qed.
+
 Definition ex_ring3 : composition :=
   [ mkC (KTime 0 [10] false) 1 [ mkIn (2, 0)%nat [AFixed 6; APass; AFixed 5] ];
     mkC (KTime 0 [1] false) 1 [ mkIn (0, 0)%nat [AFixed 3] ];
@@ -163,6 +179,21 @@ Proof.
   vm_compute. reflexivity.
 Qed.
 
+Example C04_ring_nonvacuous :
+  (* ex_ring3: steps 10 + 1 + 3 = 14, delays (6 + 5) + 3 + 0 = 14 *)
+  ring ex_ring3 (fun c => c) (fun c => match c with 0%nat => 11 | 1%nat => 3 | _ => 0 end) /\
+  zsum (S_of ex_ring3) (seq 0 (length ex_ring3))
+  <= zsum (fun c => match c with 0%nat => 11 | 1%nat => 3 | _ => 0 end) (seq 0 (length ex_ring3)).
+Proof.
+  split; [|vm_compute; discriminate].
+  split.
+  - intros c H. exact H.
+  - intros c c' _ _ H. exact H.
+  - intros c H. simpl in H.
+    destruct c as [|[|[|c]]]; [| | |Lia.lia]; (split; [reflexivity|]); eexists; (split; [reflexivity|]);
+      (split; [simpl; Lia.lia|]); (split; reflexivity).
+Qed.
+
 Print Assumptions C04_outcome_closed.
 Print Assumptions C04_delay_sufficient.
 Print Assumptions C04_delay_sufficient_step.
@@ -172,3 +203,4 @@ Print Assumptions C04_resolved_cycles_complete.
 Print Assumptions C04_cycle_reported.
 Print Assumptions C04_connect_cycle_reported.
 Print Assumptions C04_connect_no_false_report.
+Print Assumptions C04_ring_total_delay_suffices.
